@@ -36,6 +36,12 @@ chk("C08", "exploration",
     "Trusted: Go stdlib, the value generator and scanner in harness/c08.go, simulated reader/writer. Real code: Paragraph.WriteTo, Encoder, Marshal, ParagraphReader.",
     "DESIGN.md §5 C08")
 
+chk("C12", "exploration",
+    "deterministic simulation: seeded byte streams through the hashing readers/writers over simulated source and sink (chunk schedules, (n,EOF), zero reads, short write/ENOSPC/EIO), and checksum entries arriving through the control reader, checked step by step against stdlib digests; seeded search with tape minimisation and exact replay",
+    "Per-step prefix consistency (size and digest of exactly the bytes passed so far), pass-through equality, error propagation under sink/source faults, and verifier verdict == (digest under the entry's own algorithm equals recorded hash) for seven recorded-hash kinds through typed fields, BestChecksums and FileHashFromHasher. Sampling: evidence, not proof.",
+    "Trusted: crypto/* of the Go stdlib as reference digests; simulated reader/writer. Real code: hashio, control.FileHash.Verifier, BestChecksums, Unmarshal.",
+    "DESIGN.md §5 C12")
+
 def main():
     props = [json.loads(l) for l in open(os.path.join(HERE, "properties.jsonl"))]
     ids = [p["id"] for p in props]
